@@ -278,6 +278,42 @@ pub fn check(case: &Case, idx: u64, acc: &mut Acc) {
                 acc.nontrivial();
                 acc.bump("negative non-integer quotient");
             }
+            // operands that SHARE their variable list (the divisor re-built on the dividend's list, or the other
+            // way round, whenever its names are a subset)
+            {
+                let sub = |x: &NumSpec, y: &NumSpec| !x.names.is_empty() && x.names.iter().all(|n| y.names.contains(n));
+                let half = |s: &NumSpec| -> Vec<f64> { s.h.iter().map(|x| 0.5 * x).collect() };
+                let mut pairs1: Vec<(Dual, Dual)> = vec![];
+                let mut pairs2: Vec<(Dual2, Dual2)> = vec![];
+                if sub(b, a) {
+                    let (a1, a2) = (a.dual(&u), a.dual2(&u));
+                    let b1 = Dual::try_new_from(&a1, b.v, b.name_strings(&u), b.g.clone()).unwrap();
+                    let b2 = Dual2::try_new_from(&a2, b.v, b.name_strings(&u), b.g.clone(), half(b)).unwrap();
+                    pairs1.push((a1, b1));
+                    pairs2.push((a2, b2));
+                }
+                if sub(a, b) {
+                    let (b1, b2) = (b.dual(&u), b.dual2(&u));
+                    let a1 = Dual::try_new_from(&b1, a.v, a.name_strings(&u), a.g.clone()).unwrap();
+                    let a2 = Dual2::try_new_from(&b2, a.v, a.name_strings(&u), a.g.clone(), half(a)).unwrap();
+                    pairs1.push((a1, b1));
+                    pairs2.push((a2, b2));
+                }
+                let (w1, w2) = (a.refd1().rem(&b.refd1()), a.refd2().rem(&b.refd2()));
+                for (x, y) in pairs1.iter() {
+                    acc.eval();
+                    acc.bump("remainders on a shared variable list");
+                    if let Err(e) = cmp_dual(&(x % y), &w1, &u, TOL, TOL) {
+                        acc.violate("rem/Dual/shared-storage", idx, cj(), json!(format!("{:?}", w1.val.v)), json!(e));
+                    }
+                }
+                for (x, y) in pairs2.iter() {
+                    acc.eval();
+                    if let Err(e) = cmp_dual2(&(x % y), &w2, &u, TOL, TOL, TOL) {
+                        acc.violate("rem/Dual2/shared-storage", idx, cj(), json!(format!("{:?}", w2.val.v)), json!(e));
+                    }
+                }
+            }
             let fa = NumSpec::constant(a.v);
             let fb = NumSpec::constant(b.v);
             // (form, left, right)
@@ -488,7 +524,7 @@ pub fn run(ctx: &Ctx, replay_file: Option<String>) -> ! {
         "every pair of numbers from (value table x 4 derivative contents) for comparisons and remainder in the forms \
          dual-dual / dual-float / float-dual, on Dual, Dual2 and Number; abs, signum / is_positive / is_negative / is_zero (also at +-0), abs_sub on every pair, and the zero/one identities on every \
          number; every sequence of length 0..L over a 5-number pool for sum (items realised both as fresh numbers and as \
-         clones of one object), plus rotating sequences of length 7, 8, 9, 15, 16, 17, 31..34, 64, 65, 130 over a pool widened by numbers carrying all three names in several stored orders; remainders with quotients of 1e13 .. 1e27 (beyond 2^53 and 2^63). Non-trivial: comparisons of unequal \
+         clones of one object), plus rotating sequences of length 7, 8, 9, 15, 16, 17, 31..34, 64, 65, 130 over a pool widened by numbers carrying all three names in several stored orders; remainders also with the two operands sharing one variable list; remainders with quotients of 1e13 .. 1e27 (beyond 2^53 and 2^63). Non-trivial: comparisons of unequal \
          values with derivatives present, abs of negative numbers with derivatives, remainders with negative \
          non-integer quotient and derivatives, sums of >= 2 terms, identities on numbers that carry variables. \
          Oracle: float comparison; RefDual (by-name value/gradient/Hessian) for abs, rem = a - b*trunc(a/b), left fold \
